@@ -4,6 +4,7 @@
 #include "../kit/viewprog.hpp"
 #include <boost/multi/array_ref.hpp>
 #include <sys/mman.h>
+#include <array>
 using namespace vk;
 
 static GenCfg cfg;
@@ -92,6 +93,25 @@ static void huge_extent_probe(Rng& g) {
 	munmap(mp, total); nontrivial(true);
 }
 
+// ---- a view assigned a std range (vector, std::array, vector of vectors) of another length: stopped by an assertion BEFORE anything is written (destination and neighbours intact at the time of the stop)
+static void range_assign_probe(Rng& g) {
+	L const rows = g.in(2, 4), cols = g.in(2, 5); int const kind = int(g.below(4)); bool const longer = g.chance(1, 2); static char const* KN[] = {"row=vector", "array_ref1d()=std::array", "rows=vector<vector>", "named-row=vector"};
+	std::string const what = std::string(KN[kind]) + (longer ? ":longer-source" : ":shorter-source"); describe(" range-assign " + what); sig_mix("range-assign"); sig_mix(what.c_str()); op(("death:range-assign:" + what).c_str()); count("death_probes:range-assign"); std::string err;
+	int rc = fork_run([&] { st().expect_death = true; st().assert_throws = true; L const G2 = 64; std::vector<int> buf(std::size_t(rows * cols + 2 * G2), -7); for(L k = 0; k < rows * cols; ++k) buf[std::size_t(G2 + k)] = int(k); std::vector<int> const snap = buf;
+		multi::array_ref<int, 2> A({rows, cols}, buf.data() + G2); L const len = cols + (longer ? 2 : -1); bool stopped = false;
+		try { switch(kind) {
+			case 0: { std::vector<int> v(std::size_t(len), 99); A[1] = v; break; }
+			case 1: { std::array<int, 7> sa{}; sa.fill(99); multi::array_ref<int, 1> R1(multi::extensions_t<1>{longer ? 5 : 9}, buf.data() + G2); R1() = sa; break; }
+			case 2: { std::vector<std::vector<int>> vv(std::size_t(rows + (longer ? 1 : -1)), std::vector<int>(std::size_t(cols), 99)); A() = vv; break; }
+			default: { std::vector<int> v(std::size_t(len), 99); auto&& row = A[0]; row = v; break; } }
+		} catch(assertion_failure const&) { stopped = true; }
+		if(!stopped) return 94; return buf == snap ? 0 : 93; }, &err);
+	count(std::string("outcome:range-assign:") + (rc == 0 ? "stopped-clean" : rc == 93 ? "wrote-before-the-assertion" : rc == 94 ? "survived" : "other"));
+	if(rc == 93) violation("C20:death:range-assign:" + what + ":wrote-before-the-assertion", std::string(KN[kind]) + " with a source of another length was stopped by an assertion only after elements had been overwritten", false);
+	else if(rc != 0) violation("C20:death:range-assign:" + what + ":not-stopped-by-assertion", std::string(KN[kind]) + " with a source of another length " + (rc == 94 ? "survived silently" : "ended with rc=" + std::to_string(rc) + " " + err.substr(0, 160)), false);
+	nontrivial(true);
+}
+
 template<int D> void one(Case& c, Prog const& p) {
 	auto exts = make_extensions<D>(p.root); MV m = MV::root(p.root);
 	describe("D=" + std::to_string(D) + " root=" + m.shape() + ":");
@@ -104,6 +124,7 @@ int main(int argc, char** argv) {
 	return main_loop(argc, argv, [&](Case& c) {
 		static bool init = false; if(!init) { init = true; auto& a = st().args; for(std::size_t i = 0; i + 1 < a.size(); ++i) { if(a[i] == "--maxext") cfg.max_ext = std::atoi(a[i + 1].c_str()); if(a[i] == "--maxops") cfg.max_ops = std::atoi(a[i + 1].c_str()); } }
 		if(c.k % 40 == 9) { huge_extent_probe(c.rng); return; }
+		if(c.k % 40 == 29 || c.k % 40 == 19) { range_assign_probe(c.rng); return; }
 		if(c.k % 2 == 0) { Prog p = gen_prog(c.rng, cfg);
 			switch(p.root.size()) { case 1: one<1>(c, p); break; case 2: one<2>(c, p); break; case 3: one<3>(c, p); break; default: one<4>(c, p); break; } }
 		else { describe("assign-probe"); switch(c.rng.below(3)) { case 0: assign_probes<1>(c.rng); break; case 1: assign_probes<2>(c.rng); break; default: assign_probes<3>(c.rng); break; } }
